@@ -147,7 +147,17 @@ fn condition_defect(text: &str) -> Result<Option<String>, ()> {
 }
 
 pub fn judge(case: &Case) -> Outcome {
-    let text = &case.rules[0];
+    // c03.huge: the rule text is built from a descriptor (see c04::huge_rule)
+    let built;
+    let text = if case.kind == "c03.huge" {
+        built = match crate::checks::c04::huge_rule(case.texts.first().map(|s| s.as_str()).unwrap_or("")) {
+            Some(t) => t,
+            None => return Outcome::Skip("unknown descriptor".into()),
+        };
+        &built
+    } else {
+        &case.rules[0]
+    };
     let rule = match engine::load_text(text) {
         Load::Ok(r) => r,
         Load::Rejected(_) => {
@@ -198,7 +208,7 @@ pub fn judge(case: &Case) -> Outcome {
     }
     let edited = case.kind != "c03.valid";
     Outcome::Pass {
-        nontrivial: if edited { Some(hash_str(text)) } else { None },
+        nontrivial: if edited { Some(hash_str(if case.kind == "c03.huge" { &case.texts[0] } else { text })) } else { None },
         evaluations: evals,
         labels,
     }
@@ -373,6 +383,17 @@ pub fn run(tier: &str, seed: u64) -> i32 {
     replay_findings(&mut report, &findings, &judge);
     let adv = adversarial_docs();
     let n = if tier == "thorough" { 300_000 } else { 9_000 };
+
+    // pattern text that loads as separate searches but is too large for the one automaton shake
+    // would merge it into
+    for desc in ["two_entries:8391680", "two_entries:65536"] {
+        let mut c = Case::new("c03.huge");
+        c.texts = vec![desc.to_string()];
+        c.docs = vec![crate::model::DObj(vec![("foo".to_string(), crate::model::DocVal::s("xbx"))])];
+        let out = judge(&c);
+        report.label("huge_pattern_text");
+        report.record(&c, out);
+    }
 
     // (a) token soup
     let advc = adv.clone();
